@@ -161,18 +161,19 @@ impl Read for WatchClose {
 
             let err_mask = Events::EPOLLRDHUP | Events::EPOLLHUP | Events::EPOLLERR;
 
-            for ev in v.iter().take(r) {
-                if err_mask.bits() & ev.events != 0 {
-                    return Err(io::Error::from(io::ErrorKind::BrokenPipe));
-                }
-            }
-
+            // data that arrived before (or together with) a hang-up is still delivered
             for ev in v.iter().take(r) {
                 if ev.data != 0 {
                     continue;
                 }
                 if Events::EPOLLIN.bits() & ev.events != 0 {
                     break 'outer;
+                }
+            }
+
+            for ev in v.iter().take(r) {
+                if err_mask.bits() & ev.events != 0 {
+                    return Err(io::Error::from(io::ErrorKind::BrokenPipe));
                 }
             }
         }
